@@ -147,6 +147,15 @@ def _is_lazy_memo(fn, node, attr, init_attrs, params):
         if (not pol) and txt in ('self.%s is not None' % attr, "hasattr(self, '%s')" % attr):
             guarded = True
     if not guarded:
+        # the attribute read into a local first: `v = self.X; if v is None: v = E; self.X = v`
+        aliases = {a_.targets[0].id for a_ in iter_own(fn) if isinstance(a_, ast.Assign) and len(a_.targets) == 1
+                   and isinstance(a_.targets[0], ast.Name) and is_self_attr(a_.value, attr)}
+        for t, pol in atomic_facts(node):
+            txt = unparse(t)
+            if (pol and txt in ['%s is None' % a_ for a_ in aliases]) or \
+                    ((not pol) and txt in ['%s is not None' % a_ for a_ in aliases]):
+                guarded = True
+    if not guarded:
         return False
     # everything the value is computed from, through local assignments (handler = latex_walker.x();
     # fn = getattr(handler, ..); value = fn(..) depends on the parameter latex_walker)
